@@ -53,7 +53,7 @@ def instances(tier):
         for v in (["new", "old"] if g == 4 else ["std"]):
             out.append({"kind": "names", "gen": g, "acs": 1 if v == "old" else 2, "zpa": 2, "variant": v})
     for g in (4, 5):
-        for how in ("twice", "slow_connect", "after_silence"):
+        for how in ("twice", "slow_connect", "after_silence", "after_shutdown"):
             out.append({"kind": "init_again", "gen": g, "how": how})
     out.append({"kind": "zero_zones", "gen": 5, "acs": 1})
     out.append({"kind": "zero_zones", "gen": 5, "acs": 2})
@@ -181,16 +181,24 @@ def _init_again(ctx, p):
         rig.start()
         rig.run(6.25)
         first = rig.init_result
-        ctx.check(first is (True if how == "twice" else False), "silent.returns_false_at_5s" if how != "twice" else "success.returns_true",
+        ctx.check(first is (True if how in ("twice", "after_shutdown") else False), "silent.returns_false_at_5s" if how not in ("twice", "after_shutdown") else "success.returns_true",
                   detail={"how": how, "first": first})
         con.silent.clear()
         rig.init_result = None
+        if how == "after_shutdown":
+            rig.spawn(rig.at.shutdown())
+            rig.run(6.375)
+        n_before_second = len(con.requests) if how == "after_shutdown" else 0
         rig.start(at=t2)
         rig.run(t2 + 6.0 if how != "slow_connect" else t2 + 10.0)
         detail = {"how": how, "silent_step": step, "second": rig.init_result, "requests": con.kinds()[-8:]}
         ctx.observe("second", rig.init_result)
         ctx.check(rig.init_result is True and rig.at.initialised, "success.returns_true", detail=detail)
         _check_model(ctx, rig, inst, detail)
+        if how in ("slow_connect", "after_shutdown"):
+            # one handshake ran from the start on the connection that followed: the six requests in the fixed order, once each
+            kinds = [k for _, k, _ in con.requests[n_before_second:] if k in STEPS]
+            ctx.check(kinds[:6] == STEPS, "order.one_at_a_time", detail=dict(detail, why="the handshake after the second init() is not the six requests in order", kinds=kinds[:9]))
         # the model follows the console afterwards: a changed AC status report is taken up
         inst.ac_status[0] = (r4.build_ac_status(0, 0, 1, 3, 1, 1, 19, 600, 0) if g.n == 4 else r5.build_ac_status(0, 0, 1, 3, 90, 0, 0, 1, 1, 600, 0))
         con.push(con.ac_status_frame(pid=0x66, only=[0]))
